@@ -105,6 +105,10 @@ Section CompositeOps.
   Variable freshes : list (bytes * fstate).   (* CreateSubfield of every subfield of the spec *)
 
   (* unpack() first unsets every subfield that was set: the object is re-created (unsetSubfield) *)
+  (* a subfield whose Unpack fails is unset and re-created (unsetSubfield): what it decoded before failing, and an
+     earlier occurrence of the same tag, are discarded (F30) *)
+  Definition fresh_of (tag : bytes) (st : fstate) : fstate := match blookup tag freshes with Some f => f | None => st end.
+
   Definition reset_set (set : list bytes) (sts : list (bytes * fstate)) : list (bytes * fstate) :=
     map (fun ts => if bmem (fst ts) set then match blookup (fst ts) freshes with Some f => (fst ts, f) | None => ts end else ts) sts.
 
@@ -174,7 +178,7 @@ Section CompositeOps.
                 let offset' := offset + read in
                 if isvar && (zlen data <=? offset') then ((set', sts'), UOk offset')
                 else unpack_positional rest isvar data offset' set' sts'
-            | (st', r) => ((set, bupdate tag st' sts), wrap_id tag (match r with UOk _ => UFuel | UErr p e => UErr p e | UPanic q => UPanic q | UFuel => UFuel end))
+            | (st', r) => ((bremove tag set, bupdate tag (fresh_of tag st') sts), wrap_id tag (match r with UOk _ => UFuel | UErr p e => UErr p e | UPanic q => UPanic q | UFuel => UFuel end))
             end
         | _, _ => unpack_positional rest isvar data offset set sts
         end
@@ -211,9 +215,9 @@ Section CompositeOps.
                 | Some st =>
                     match up st (zdrop offset1 data) with
                     | (st', UOk read2) => unpack_by_tag f t e data (offset1 + read2) (badd tag set) (bupdate tag st' sts)
-                    | (st', UErr p er) => ((set, bupdate tag st' sts), UErr (tag :: p) er)
-                    | (st', UPanic q) => ((set, bupdate tag st' sts), UPanic q)
-                    | (st', UFuel) => ((set, bupdate tag st' sts), UFuel)
+                    | (st', UErr p er) => ((bremove tag set, bupdate tag (fresh_of tag st') sts), UErr (tag :: p) er)
+                    | (st', UPanic q) => ((bremove tag set, bupdate tag (fresh_of tag st') sts), UPanic q)
+                    | (st', UFuel) => ((bremove tag set, bupdate tag (fresh_of tag st') sts), UFuel)
                     end
                 end
             end
@@ -235,9 +239,9 @@ Section CompositeOps.
           | Some up, Some st =>
               match up st (zdrop off data) with
               | (st', UOk read) => unpack_bits f bm (i + 1) data (off + read) (badd id set) (bupdate id st' sts)
-              | (st', UErr p er) => ((set, bupdate id st' sts), UErr (id :: p) er)
-              | (st', UPanic q) => ((set, bupdate id st' sts), UPanic q)
-              | (st', UFuel) => ((set, bupdate id st' sts), UFuel)
+              | (st', UErr p er) => ((bremove id set, bupdate id (fresh_of id st') sts), UErr (id :: p) er)
+              | (st', UPanic q) => ((bremove id set, bupdate id (fresh_of id st') sts), UPanic q)
+              | (st', UFuel) => ((bremove id set, bupdate id (fresh_of id st') sts), UFuel)
               end
           | _, _ => ((set, sts), UErr [id] (E "composite.no_spec"))
           end
